@@ -383,7 +383,20 @@ def _run_chunk(args):
     machine_key, verif_seed, indices, per_run_limit, want_samples = args
     machine_cls = _WORKER_STATE["machines"][machine_key]
     out = []
-    signal.signal(signal.SIGALRM, _alarm_handler)
+    # (when called in-process the caller's own alarm - run_check's watchdog - is put back afterwards)
+    outer_left = signal.alarm(0)
+    outer_handler = signal.signal(signal.SIGALRM, _alarm_handler)
+    t_enter = time.time()
+    try:
+        return _run_chunk_inner(machine_cls, verif_seed, indices, per_run_limit, want_samples, out)
+    finally:
+        signal.alarm(0)
+        signal.signal(signal.SIGALRM, outer_handler)
+        if outer_left:
+            signal.alarm(max(1, int(outer_left - (time.time() - t_enter))))
+
+
+def _run_chunk_inner(machine_cls, verif_seed, indices, per_run_limit, want_samples, out):
     for idx in indices:
         rec = new_record(machine_cls, verif_seed, idx)
         t0 = time.time()
